@@ -141,9 +141,12 @@ def check(F, rep, tier):
     rep.floor("R01.3", "free-text field reads on the rendering path", n_reads, 4)
     # ---- R01.4 non-empty guard ------------------------------------------------------------------
     n_push = 0
-    for p in sorted(reach):
-        f = F.fns.get(p)
-        if f is None or not (p.startswith("crate::version::semver::from_zerv") or p.startswith("crate::version::pep440::from_zerv")): continue
+    MODS = ("crate::version::semver::from_zerv", "crate::version::pep440::from_zerv")
+    cands = [F.fns[p] for p in sorted(reach) if p in F.fns and p.startswith(MODS) and F.fns[p].kind != "closure"]
+    called = {mir.callee(t) for g in cands for bi, t in g.calls() if (mir.callee(t) or "").startswith(MODS)}
+    # the module's entry points, with every local helper spliced in: a push is judged in the context of its callers
+    for f0 in [g for g in cands if g.path not in called]:
+        f = mir.inlined(F, f0, depth=6)
         for bi, t in f.calls():
             if not (mir.callee(t) or "").endswith("Vec::<T, A>::push"): continue
             recv = mir.trace_op(f, t[2][0], transparent=())
@@ -155,10 +158,19 @@ def check(F, rep, tier):
                         if fl and fl[-1] in ("pre_release", "build_metadata", "local"): tgt = fl[-1]
             if tgt is None: continue
             n_push += 1
-            site = "%s bb%d line %s" % (f.where(), bi, f.blocks[bi]["line"])
-            good = any(d[0] == "call" and (d[1] or "").endswith("::is_empty") and pol is False for d, pol, dd in mir.guards_of(f, bi))
-            key = "%s#%s" % (p.replace("crate::", ""), tgt)
-            if good: rep.ok("R01.4", "push into %s guarded by !is_empty()" % tgt, sample=site, nontrivial_key=key)
+            home = (f.blocks[bi].get("from") or f0.path).replace("crate::", "")
+            site = "%s (in %s) bb%d line %s" % (f.where(), home, bi, f.blocks[bi]["line"])
+            # the guard must be about the pushed element itself (not about the whole value it was split from)
+            elem = mir.deep_origins(f, t[2][1])
+            good = False
+            for d, pol, dd in mir.guards_of(f, bi):
+                if d[0] == "call" and (d[1] or "").endswith("::is_empty") and pol is False:
+                    subj = {(o.kind, str(o.data)) for o in mir.trace_op(f, d[2][2][0], transparent=())}
+                    if subj & elem: good = True
+            if not good:
+                good = any(mir.closure_is_nonempty_test(c) for c in mir.dominating_filter_closures(F, f, bi, elem))
+            key = "%s#%s" % (home, tgt)
+            if good: rep.ok("R01.4", "push into %s guarded by !is_empty() (if / filter)" % tgt, sample=site, nontrivial_key=key + str(bi))
             else: rep.bad("R01.4", "empty-identifier:" + key, "an identifier is pushed into %s without a non-empty guard (an empty identifier is invalid in both grammars)" % tgt, site)
     rep.floor("R01.4", "identifier pushes on the rendering path", n_push, 4)
     # ---- R01.6 a PEP 440 version always has a release segment ---------------------------------------
